@@ -458,8 +458,45 @@ func (e *CEnv) ident(name string) *Val {
 	if v := e.pkgMember(e.pkg, name); v != nil {
 		return v
 	}
+	// a local the code has renamed: the contract's name for the k-th local variable of the function
+	if cur := e.currentLocalName(name); cur != name {
+		saved := e.contract
+		e.contract = nil // no second indirection
+		v := e.ident(cur)
+		e.contract = saved
+		return v
+	}
 	e.errf("unknown identifier %q", name)
 	return nil
+}
+
+// currentLocalName maps the contract's name for a local variable ("locals" item: the function's
+// locals in declaration order) to the name the code uses now.
+func (e *CEnv) currentLocalName(name string) string {
+	if e.contract == nil || len(e.contract.LocalNames) == 0 || e.specDepth != 0 {
+		return name
+	}
+	fn := e.fn
+	if e.frame != nil {
+		fn = e.frame.fn
+	}
+	own := false
+	for _, f := range e.x.ld.fnByKey[e.contract.Key] {
+		own = own || f == fn
+	}
+	if fn == nil || !own {
+		return name
+	}
+	cur := e.x.ld.localsOf(fn)
+	if len(cur) != len(e.contract.LocalNames) {
+		return name
+	}
+	for i, n := range e.contract.LocalNames {
+		if n == name && cur[i] != name {
+			return cur[i]
+		}
+	}
+	return name
 }
 
 func (e *CEnv) findPkg(path string) *ssa.Package {
@@ -1247,6 +1284,9 @@ func (e *CEnv) call(n *ast.CallExpr) *Val {
 		}
 		if e.atHeader != nil {
 			if v, ok := e.atHeader[id.Name]; ok {
+				return v
+			}
+			if v, ok := e.atHeader[e.currentLocalName(id.Name)]; ok {
 				return v
 			}
 			e.errf("atheader: %s is not carried by this loop", id.Name)
